@@ -449,25 +449,28 @@ theorem C05_enter_conciliates (c : Cfg) (st : St) :
     `ConciliationState._master_next` of the Master: CONCILIATION while a start/stop job is in progress (no new order); when
     idle, OPERATION iff `context.conflicting()` is false, otherwise the state stays CONCILIATION and the conciliation order
     is given again (with USER that order does nothing, `C05_user_nothing`: the state stays CONCILIATION until the conflict
-    disappears).  The order is the only output. -/
+    disappears).  The only other output is the hand-over of processes lost with an instance (`failJobs`, C06). -/
 theorem C05_conciliation_next (c : Cfg) (st : St) (a b k : Nat) (rest : List (Query × Nat)) (hm : IsMaster c st)
     (ho : st.oracle = (.starterBusy, a) :: (.stopperBusy, b) :: (.conflicting, k) :: rest) :
     ∃ st', (nextConciliation c).run st
         = .ok (some (if a = 0 ∧ b = 0 ∧ k = 0 then SState.operation else SState.conciliation), st')
-      ∧ st'.out = (if a = 0 ∧ b = 0 ∧ k ≠ 0 then st.out ++ [Out.conciliate] else st.out) := by
+      ∧ st'.out = (if st.lostProcs then st.out ++ [Out.failJobs] else st.out)
+                  ++ (if a = 0 ∧ b = 0 ∧ k ≠ 0 then [Out.conciliate] else []) := by
   unfold nextConciliation
-  simp only [run_bind_eq, run_isMaster, ok_bind, hm, decide_true, if_true]
-  by_cases ha : a = 0 <;> by_cases hb : b = 0 <;> by_cases hk : k = 0 <;>
+  simp only [run_bind_eq, run_isMaster, ok_bind, hm, decide_true, if_true, run_masterFailJobs]
+  cases hl : st.lostProcs <;> by_cases ha : a = 0 <;> by_cases hb : b = 0 <;> by_cases hk : k = 0 <;>
     simp [run_ask, run_emit, ok_bind, ho, ha, hb, hk]
   all_goals first | exact ⟨_, rfl, rfl⟩ | skip
 
 /-- once the stops are acknowledged and the jobs are over (`C05_clean_exit`: `context.conflicting()` is false), the
-    Master's next evaluation returns OPERATION -/
+    Master's next evaluation returns OPERATION, without any conciliation order -/
 theorem C05_back_to_operation (c : Cfg) (st : St) (rest : List (Query × Nat)) (hm : IsMaster c st)
     (ho : st.oracle = (.starterBusy, 0) :: (.stopperBusy, 0) :: (.conflicting, 0) :: rest) :
-    ∃ st', (nextConciliation c).run st = .ok (some SState.operation, st') ∧ st'.out = st.out := by
+    ∃ st', (nextConciliation c).run st = .ok (some SState.operation, st') ∧ Out.conciliate ∉ st'.out.drop st.out.length := by
   obtain ⟨st', h1, h2⟩ := C05_conciliation_next c st 0 0 0 rest hm ho
-  exact ⟨st', by simpa using h1, by simpa using h2⟩
+  refine ⟨st', by simpa using h1, ?_⟩
+  rw [h2]
+  cases st.lostProcs <;> simp
 
 /-- with a conflict left (USER: nothing was stopped) and no job, the state stays CONCILIATION -/
 theorem C05_user_stays (c : Cfg) (st : St) (k : Nat) (hk : k ≠ 0) (rest : List (Query × Nat)) (hm : IsMaster c st)
